@@ -178,22 +178,85 @@ pub fn crash_exit(kind: &str, msg: &str, code: i32) -> ! {
     std::process::exit(code);
 }
 
+/// OS-level view of the process's threads (other than the calling one): are all of them
+/// sleeping in the kernel, and how much CPU time have they used so far? A thread that waits for
+/// a lock or condition variable the hooks do not cover shows up here as sleeping without
+/// using CPU; a thread that is merely starved of CPU shows up as runnable.
+fn os_threads_all_sleeping() -> Option<(bool, u64)> {
+    let me = unsafe { libc::syscall(libc::SYS_gettid) } as u64;
+    let mut all_sleeping = true;
+    let mut ticks = 0u64;
+    for e in std::fs::read_dir("/proc/self/task").ok()? {
+        let e = e.ok()?;
+        let tid: u64 = e.file_name().to_string_lossy().parse().ok()?;
+        if tid == me {
+            continue;
+        }
+        let Ok(stat) = std::fs::read_to_string(e.path().join("stat")) else { continue };
+        let Some(rp) = stat.rfind(')') else { continue };
+        let f: Vec<&str> = stat[rp + 1..].split_whitespace().collect();
+        // f[0] = state, f[11] = utime, f[12] = stime (fields 3, 14, 15 of the stat line)
+        if f.len() < 13 {
+            continue;
+        }
+        if f[0] != "S" {
+            all_sleeping = false;
+        }
+        ticks += f[11].parse::<u64>().unwrap_or(0) + f[12].parse::<u64>().unwrap_or(0);
+    }
+    Some((all_sleeping, ticks))
+}
+
 fn guard_loop() {
     let mut last_len = usize::MAX;
     let mut stable_since: Option<std::time::Instant> = None;
+    let mut os_quiet_since: Option<(std::time::Instant, u64)> = None;
     loop {
         std::thread::sleep(std::time::Duration::from_millis(100));
         let n = GUARD_WORKERS.load(Ordering::SeqCst) as usize;
         if n == 0 {
             last_len = usize::MAX;
             stable_since = None;
+            os_quiet_since = None;
             continue;
         }
         let len = log_len();
         if len != last_len {
             last_len = len;
             stable_since = None;
+            os_quiet_since = None;
             continue;
+        }
+        // second, OS-level predicate: no event, every thread asleep in the kernel at every look
+        // and not a single tick of CPU time used, for 8 seconds: nothing in this process can run
+        match os_threads_all_sleeping() {
+            Some((true, ticks)) => match os_quiet_since {
+                Some((since, t0)) if ticks <= t0 + 1 => {
+                    if since.elapsed() >= std::time::Duration::from_millis(8000) && log_len() == len && GUARD_WORKERS.load(Ordering::SeqCst) as usize == n {
+                        let log = log_copy_from(0);
+                        let d = derive(&log);
+                        let states: Vec<String> = d
+                            .threads
+                            .iter()
+                            .map(|(t, s)| format!("t{}{}={:?}", t, d.worker_of_tid.get(t).map(|w| format!("(worker {})", w)).unwrap_or_default(), s))
+                            .collect();
+                        let desc = format!(
+                            "no thread of the process was runnable or used any CPU time for 8 s and no hook event arrived (threads shown as Running are asleep in the kernel, i.e. waiting for a lock the hooks do not cover): {} | queue len={} bytes={} closed={}",
+                            states.join(", "),
+                            d.qlen,
+                            d.qbytes,
+                            d.closed
+                        );
+                        let h = *STUCK_HANDLER.lock().unwrap();
+                        if let Some(f) = h {
+                            f(&desc, &log);
+                        }
+                        crash_exit("stuck", &desc, 102);
+                    }
+                }
+                _ => os_quiet_since = Some((std::time::Instant::now(), ticks)),
+            },
+            _ => os_quiet_since = None,
         }
         let log = log_copy_from(0);
         let d = derive(&log);
